@@ -114,8 +114,8 @@ func init() {
 		Explanation: "The compile-time precedence decision is a finite table; it is extracted from the code by abstract evaluation and compared with the documented one. DTX(resolvePrec): for every combination of (rule has precedence, lookahead has precedence, order of the two groups, associativity) the result equals: missing -> conflict; higher wins; equal -> left reduces, right shifts, nonassoc is an error. " +
 			"GUARD(lastterminal): the fallback takes the last RHS symbol with 0 < sym < Terminals (markers and nonterminals excluded). DTX(ruleAction): shift x {reduce, error, shift, conflict} -> {rule, -3, -1, -1}; an existing conflict or nonassoc error keeps its action; an unresolved reduce/reduce keeps the earlier rule and reports both. " +
 			"MUSTPASS(nonassoc-rewrite): -3 becomes the error code -2 before a row is emitted. LOCKSTEP(precGroup): later declaration = larger group. DTX(assocmap): %left/%right/%nonassoc map to Left/Right/NonAssoc. CODEC(optimize): nonassoc errors survive defaultReduce (every pair of a lookahead row stores its cell; only sentinel cells take the default). ORDER(alternatives): compiler.or keeps the base nonterminal's rules before the rules of its extend clauses, so the \"earlier rule\" of a reduce/reduce default is the one written first. " +
-			"Not decided: that the chosen action is what the running parser does (C01), hasConflict bookkeeping across several rules on one terminal. DTX(hasConflict) as in C03: a terminal already decided by precedence still goes through precedence resolution for the next rule. SIGNATURE(lalr-cell) as in C06: under minimizeDFA the per-terminal entries of a lookahead state (nonassoc errors included) are part of the state's signature.",
-		Rules: []string{"ORDER(alternatives)", "DTX(resolvePrec)", "GUARD(lastterminal)", "DTX(ruleAction)", "MUSTPASS(nonassoc-rewrite)", "LOCKSTEP(precGroup)", "DTX(assocmap)", "CODEC(optimize)", "DTX(hasConflict)", "SIGNATURE(lalr-cell)"},
+			"Not decided: that the chosen action is what the running parser does (C01), hasConflict bookkeeping across several rules on one terminal. DTX(hasConflict) as in C03: a terminal already decided by precedence still goes through precedence resolution for the next rule. SIGNATURE(lalr-cell) as in C06: under minimizeDFA the per-terminal entries of a lookahead state (nonassoc errors included) are part of the state's signature. PROPAGATE(unresolved) as in C07: an only partly decidable reduce/reduce conflict stays a reported conflict.",
+		Rules: []string{"ORDER(alternatives)", "DTX(resolvePrec)", "GUARD(lastterminal)", "DTX(ruleAction)", "MUSTPASS(nonassoc-rewrite)", "LOCKSTEP(precGroup)", "DTX(assocmap)", "CODEC(optimize)", "DTX(hasConflict)", "SIGNATURE(lalr-cell)", "PROPAGATE(unresolved)"},
 		Run: func(c *Ctx) {
 			ruleORORDER(c)
 			ruleRESOLVEPREC(c)
@@ -124,6 +124,7 @@ func init() {
 			rulePRECPLUMBING(c)
 			ruleOPTCODEC(c)
 			ruleSIGCELL(c)
+			ruleTRIEUNRESOLVED(c)
 		},
 	})
 	register(&Property{
@@ -154,13 +155,14 @@ func init() {
 		ID: "C24",
 		Explanation: "Decides structural necessary conditions of 'shift-DFA scanners agree with the tables they pack': INTERVAL(bitpack): with field width W read from Pack (target*W, state*W), the accepted number of states K satisfies K*W <= 64, (K-1)*W < 2^W and K <= len(onEoi); actions < A encode as action*2+1 < 2^W; Scan decodes with mask 2^W-1, /W and /2. " +
 			"CONSTAGREE(ascii): the guard on the last symbol-map entry is <= the byte split (128) below which bytes are mapped individually. GUARD(nobacktrack): tables with checkpoints or several start states are rejected (the -1-cell decode and state 0 start are valid only then). GLOBALS: no package-level mutable state in shiftdfa. " +
-			"Not decided: equality of results on all inputs as such. CONSTAGREE(last-entry): the symbol Pack gives to all non-ASCII bytes is the Target of the last SymbolMap entry (the catch-all range), as lex.Tables documents. CODEC(lexdfa): the reference side - lex.Tables.Scan decodes the cell classes as documented, including the end-of-input fallback to the last accepted position.",
-		Rules: []string{"INTERVAL(bitpack)", "CONSTAGREE(ascii)", "GUARD(nobacktrack)", "GLOBALS", "CONSTAGREE(last-entry)", "CODEC(lexdfa)"},
+			"Not decided: equality of results on all inputs as such. CONSTAGREE(last-entry): the symbol Pack gives to all non-ASCII bytes is the Target of the last SymbolMap entry (the catch-all range), as lex.Tables documents. CODEC(lexdfa): the reference side - lex.Tables.Scan decodes the cell classes as documented, including the end-of-input fallback to the last accepted position. UNITS(scan-size) as in C09 (the reference side of the comparison).",
+		Rules: []string{"INTERVAL(bitpack)", "CONSTAGREE(ascii)", "GUARD(nobacktrack)", "GLOBALS", "CONSTAGREE(last-entry)", "CODEC(lexdfa)", "UNITS(scan-size)"},
 		Run: func(c *Ctx) {
 			ruleSHIFTDFA(c)
 			ruleLASTENTRY(c)
 			rulePKGGLOBALS(c, "shiftdfa")
 			ruleLEXCODEC(c)
+			ruleSCANSIZE(c)
 		},
 	})
 }
@@ -170,8 +172,8 @@ func init() {
 		ID: "C09",
 		Explanation: "Decides structural necessary conditions of longest-match-with-priority tables: DTX(accept-priority): in a DFA state the accepted rule is replaced only by a rule of strictly higher precedence, equal precedence with a different action is an error. FIELDCOV(checkpoint): backtracking checkpoints are shared only between transitions with the same target state and the same accepted action, and carry that action. " +
 			"CODEC(lexdfa): the writer's three cell classes (state, checkpoint k = -1-k, accept = -1-action shifted below the checkpoints) are produced under the right tests; Tables.Scan reads Backtrack[-1-cell] only for actionStart < cell < 0, computes actionStart-cell only for cell <= actionStart (also on the end-of-input transition), and prefers a recorded checkpoint over the invalid action. " +
-			"Not decided: subset construction, epsilon closure, symbol-class compression. PAIR(checkpoint): recording a backtracking checkpoint records both the accepted action and the offset (Tables.Scan and the generated lexers). GUARD(empty-accept): addPattern reports `accepts empty text` both for accepting instructions linked from a pattern's first instruction and for an accepting first instruction itself (patterns that compile to no instruction: (), a{0}). INPLACE(write-behind-read): the in-place link filter of reCompiler.compile never writes ahead of its read cursor. GUARD(full-match): callers that use Tables.Scan to classify a whole constant (compiler.resolveClasses) compare the matched size with len(text) before trusting the action. LOOPSHAPE(fold-orbit) as in C10 (case folding visits the whole orbit, also in bytes mode). LOSTWRITE(range-copy): stores into fields of range copies in lex and compiler are observable (the token id of a backtracking checkpoint is written to Backtrack[i], not to a copy). CONSTAGREE(reserved-tokens) as in C11.",
-		Rules: []string{"DTX(accept-priority)", "FIELDCOV(checkpoint)", "CODEC(lexdfa)", "PAIR(checkpoint)", "GUARD(empty-accept)", "INPLACE(write-behind-read)", "GUARD(full-match)", "LOOPSHAPE(fold-orbit)", "LOSTWRITE(range-copy)", "CONSTAGREE(reserved-tokens)"},
+			"Not decided: subset construction, epsilon closure, symbol-class compression. PAIR(checkpoint): recording a backtracking checkpoint records both the accepted action and the offset (Tables.Scan and the generated lexers). GUARD(empty-accept): addPattern reports `accepts empty text` both for accepting instructions linked from a pattern's first instruction and for an accepting first instruction itself (patterns that compile to no instruction: (), a{0}). INPLACE(write-behind-read): the in-place link filter of reCompiler.compile never writes ahead of its read cursor. GUARD(full-match): callers that use Tables.Scan to classify a whole constant (compiler.resolveClasses) compare the matched size with len(text) before trusting the action. LOOPSHAPE(fold-orbit) as in C10 (case folding visits the whole orbit, also in bytes mode). LOSTWRITE(range-copy): stores into fields of range copies in lex and compiler are observable (the token id of a backtracking checkpoint is written to Backtrack[i], not to a copy). CONSTAGREE(reserved-tokens) as in C11. UNITS(scan-size): the size Tables.Scan returns is made of 0, len(text) and cursor offsets only; the start-condition parameter (same type, also called start) never flows into it.",
+		Rules: []string{"DTX(accept-priority)", "FIELDCOV(checkpoint)", "CODEC(lexdfa)", "PAIR(checkpoint)", "GUARD(empty-accept)", "INPLACE(write-behind-read)", "GUARD(full-match)", "LOOPSHAPE(fold-orbit)", "LOSTWRITE(range-copy)", "CONSTAGREE(reserved-tokens)", "UNITS(scan-size)"},
 		Run: func(c *Ctx) {
 			ruleACCEPTPRIO(c)
 			ruleCHECKPOINTKEY(c)
@@ -182,6 +184,7 @@ func init() {
 			ruleFULLMATCH(c, "compiler", "gen", "grammar")
 			ruleFOLDORBIT(c)
 			ruleRESERVEDTOKENS(c)
+			ruleSCANSIZE(c)
 			ruleLOSTWRITE(c, "lex", "compiler")
 		},
 	})
@@ -392,13 +395,14 @@ func init() {
 		ID: "C07",
 		Explanation: "Decides structural necessary conditions of 'LALR(k) resolution never changes the language': CODEC(deep-pointer): lookahead pointers are encoded as -3-offset by every writer (trie emitter, populateTables, the Lalr patch) and decoded as -action-3 by every reader (Optimize, minimize's partitioning, each generated lalr()), and generated parse loops treat action < -2 as a pointer. MUSTPASS(trie-id): a minimized trie node receives its id before it is published in the shared cache. " +
 			"DTX(resolved-flag): a conflict is marked resolved only if no lookahead terminal failed (the flag only moves from true to false inside the terminal loop); UsedLADepth is raised with every patched pointer. GUARD(optimize-la): tables with pointers are not handed to Optimize. ORDER: the trie's map iterations are sorted (C18). GUARD(terminal-follow): both phases of buildLA (in-rule and cross-rule) contribute to the follow sets of terminal transitions when follow sets hold transitions (k>1). LOOPSHAPE(collect-all): the loops that gather a rule's transitions on the conflict terminal run to exhaustion. WHOCALLS(Lexer.Next): the deep-lookahead loop (like every parser-side fetch) reads tokens through the filter that drops injected comment/invalid tokens. " +
-			"Not decided: soundness of the trie (which rule a lookahead string selects). MUSTPASS(compile-order): lookahead resolution runs after the tables are populated and before conflicts are reported. MUSTPASS(trie-id) also requires the id counter to be a field of the builder that owns the cross-conflict cache; GUARD(terminal-follow) requires the terminal case of the cross-rule phase to sit in the same backward walk as the nonterminal case. LOSTWRITE(range-copy): a store into a field of a `for _, e := range` copy of a struct element is read later in the iteration or written back (the minimised child of a lookahead-trie node reaches n.edges[i].child). SIGNATURE(lalr-cell) as in C06: when the DFA is minimised, references to deep-lookahead automata stay part of a state's signature.",
-		Rules: []string{"CODEC(deep-pointer)", "MUSTPASS(trie-id)", "DTX(resolved-flag)", "GUARD(optimize-la)", "GUARD(terminal-follow)", "WHOCALLS(Lexer.Next)", "LOOPSHAPE(collect-all)", "MUSTPASS(compile-order)", "LOSTWRITE(range-copy)", "SIGNATURE(lalr-cell)"},
+			"Not decided: soundness of the trie (which rule a lookahead string selects). MUSTPASS(compile-order): lookahead resolution runs after the tables are populated and before conflicts are reported. MUSTPASS(trie-id) also requires the id counter to be a field of the builder that owns the cross-conflict cache; GUARD(terminal-follow) requires the terminal case of the cross-rule phase to sit in the same backward walk as the nonterminal case. LOSTWRITE(range-copy): a store into a field of a `for _, e := range` copy of a struct element is read later in the iteration or written back (the minimised child of a lookahead-trie node reaches n.edges[i].child). SIGNATURE(lalr-cell) as in C06: when the DFA is minimised, references to deep-lookahead automata stay part of a state's signature. PROPAGATE(unresolved): in trieBuilder.resolve a nil answer of the recursive call returns nil for the whole node (a conflict is resolved only if every continuation is).",
+		Rules: []string{"CODEC(deep-pointer)", "MUSTPASS(trie-id)", "DTX(resolved-flag)", "GUARD(optimize-la)", "GUARD(terminal-follow)", "WHOCALLS(Lexer.Next)", "LOOPSHAPE(collect-all)", "MUSTPASS(compile-order)", "LOSTWRITE(range-copy)", "SIGNATURE(lalr-cell)", "PROPAGATE(unresolved)"},
 		Run: func(c *Ctx) {
 			ruleCOLLECTALL(c)
 			ruleWHOCALLS(c)
 			ruleTERMFOLLOW(c)
 			ruleLALRK(c)
+			ruleTRIEUNRESOLVED(c)
 			ruleLOSTWRITE(c, "lalr")
 			ruleSIGCELL(c)
 			ruleCOMPILEORDER(c)
